@@ -13,6 +13,7 @@ import pandas as pd
 from tabulate import tabulate
 
 from glotaran.io import load_parameters
+from glotaran.parameter.parameter import PARAMETER_EXPRESSION_REGEX
 from glotaran.parameter.parameter import Parameter
 from glotaran.utils.ipython import MarkdownStr
 from glotaran.utils.sanitize import pretty_format_numerical
@@ -315,15 +316,28 @@ class Parameters:
         ValueError
             Raised if an expression evaluates to a non-numeric value.
         """
+        updated: set[str] = set()
+
+        def update(parameter: Parameter, pending: tuple[str, ...]):
+            if parameter.expression is None or parameter.label in updated:
+                return
+            # parameters referenced by the expression are brought up to date first,
+            # so that the result does not depend on the order of declaration
+            for match in PARAMETER_EXPRESSION_REGEX.findall(parameter.expression):
+                referenced = self._parameters.get(match[0])
+                if referenced is not None and referenced.label not in pending:
+                    update(referenced, (*pending, parameter.label))
+            value = self._evaluator(parameter.transformed_expression)
+            if not isinstance(value, (int, float)):
+                raise ValueError(
+                    f"Expression '{parameter.expression}' of parameter '{parameter.label}' "
+                    f"evaluates to non numeric value '{value}'."
+                )
+            parameter.value = value
+            updated.add(parameter.label)
+
         for parameter in self.all():
-            if parameter.expression is not None:
-                value = self._evaluator(parameter.transformed_expression)
-                if not isinstance(value, (int, float)):
-                    raise ValueError(
-                        f"Expression '{parameter.expression}' of parameter '{parameter.label}' "
-                        f"evaluates to non numeric value '{value}'."
-                    )
-                parameter.value = value
+            update(parameter, ())
 
     def get_label_value_and_bounds_arrays(
         self, exclude_non_vary: bool = False
